@@ -63,7 +63,7 @@ def cases(tier, seed):
         yield dict(kind='degenerate', sub=sub, tier=tier)
 
 
-DEGENERATE = ['no events (slice)', 'no events (mask)', 'one event', 'two events', 'no events (array)', 'one event (array)']
+DEGENERATE = ['no events (slice)', 'no events (mask)', 'one event', 'two events', 'three events', 'no events (array)', 'one event (array)']
 
 
 def bounds(tier, seed):
@@ -297,7 +297,7 @@ def run_case(c):
             # conversion and refusal do not depend on how many events the sample holds
             sub = c['sub']
             dd = {'no events (slice)': lambda: d[:0], 'no events (mask)': lambda: d[np.asarray(d[:, 0]) < 0], 'one event': lambda: d[4:5],
-                  'two events': lambda: d[[7, 2]], 'no events (array)': lambda: base[:0].copy(), 'one event (array)': lambda: base[4:5].copy()}[sub]()
+                  'two events': lambda: d[[7, 2]], 'three events': lambda: d[5:8], 'no events (array)': lambda: base[:0].copy(), 'one event (array)': lambda: base[4:5].copy()}[sub]()
             db = np.array(np.asarray(dd))
             named = hasattr(dd, 'channels')
             for SC in ordered_subsets(mink=1, maxk=3):
@@ -308,6 +308,16 @@ def run_case(c):
                         unc = [j for j in rc if j not in SC]
                         judge(res, 'degenerate', 'to_mef(sample with %s, channels=%r, curves for %r, sc_channels=%r)' % (sub, req, SC, scch), dd, db,
                               lambda: to_mef(dd, req, scl, scch), SC, rc, dict(c), 'channel(s) %r have no curve' % unc if unc else None)
+                    if named and scch == list(SC):
+                        # the same with every channel counted from the last one (request and curve list in the same convention)
+                        negsc = [j - 4 for j in SC]
+                        for req, rc in [(negsc[0], [SC[0]]), (list(negsc), list(SC)), (negsc[::-1], list(SC)[::-1]), (None, list(SC)), ([negsc[-1]], [SC[-1]])]:
+                            judge(res, 'degenerate-neg', 'to_mef(sample with %s, channels=%r, curves for %r, sc_channels=%r)' % (sub, req, SC, negsc), dd, db,
+                                  lambda: to_mef(dd, req, scl, negsc), SC, rc, dict(c), None)
+                        unc_j = [j for j in range(4) if j not in SC]
+                        if unc_j:
+                            judge(res, 'degenerate-neg', 'to_mef(sample with %s, channels=%r, curves for %r, sc_channels=%r)' % (sub, unc_j[0] - 4, SC, negsc), dd, db,
+                                  lambda: to_mef(dd, unc_j[0] - 4, scl, negsc), SC, [unc_j[0]], dict(c), 'channel %d has no curve' % unc_j[0])
                     for wrong in (scl[:-1], scl + [curve(0)]):
                         judge(res, 'degenerate', 'to_mef(sample with %s, %r, %d curves, sc_channels=%r)' % (sub, scch[:1], len(wrong), scch), dd, db,
                               lambda: to_mef(dd, scch[:1], wrong, scch), SC, [], dict(c), 'numbers of curves and channels differ')
